@@ -460,7 +460,7 @@ func c09(c *core.Check) {
 	}
 	c.Floor("C09-R2", 3)
 
-	c.Rule("C09-R3", "ABSENT/INVALID: in RemoveDatum every write lies behind the branch on which the map lookup succeeded and every exit past the arity guard returns nil; in ExpireDatum every path on which the lookup fails returns a non-nil error and every write lies behind the branch on which it succeeded; all four tuple-taking methods have the arity guard first")
+	c.Rule("C09-R3", "ABSENT/INVALID: in RemoveDatum every write lies behind the branch on which the map lookup succeeded and every exit past the arity guard returns nil; in ExpireDatum every path on which the lookup fails returns a non-nil error, every write lies behind the branch on which it succeeded and so does every nil return; all four tuple-taking methods have the arity guard first")
 	{
 		g := rem.Graph()
 		var present []mxEdge
@@ -592,7 +592,19 @@ func c09(c *core.Check) {
 					}
 				}
 			}
-			c.Verdict(okE, "C09-R3", key, pos(c, exp.Decl), "not found -> error, no write", "marking expiry on an absent tuple does not return an error (or writes something): "+why, witness...)
+			// success only through the lookup: a nil return that the present-edge does not dominate reports
+			// success for a tuple that was never looked up (so also for an absent one)
+			if okE {
+				for _, ex := range normalExits(g) {
+					if ex.Kind == "return" && !returnsNil(exp.Info(), ex.Ret) {
+						continue
+					}
+					if tr, reach := mxReachAvoiding(g, nil, ex.P, present, nil); reach {
+						okE, why, witness = false, "ExpireDatum can return nil without having found the tuple (a success exit that no lookup precedes): for an absent tuple that is success instead of the error, and for a present one the mark is silently not applied", tr
+					}
+				}
+			}
+			c.Verdict(okE, "C09-R3", key, pos(c, exp.Decl), "not found -> error, no write, success only after the lookup", "marking expiry on an absent tuple does not return an error (or writes something): "+why, witness...)
 		}
 	}
 	for _, name := range []string{"GetDatum", "RemoveDatum", "ExpireDatum", "AppendLabelValue"} {
